@@ -73,6 +73,5 @@ def amin(
         poly, graded=options["sort_graded"], reverse=options["sort_reverse"]
     )
     indices = numpy.amin(proxy, axis=axis, **kwargs)
-    out = poly[numpy.isin(proxy, indices)]
-    out = out[numpy.argsort(indices.ravel())]
+    out = poly.ravel()[numpy.argsort(proxy.ravel())[indices.ravel()]]
     return numpoly.reshape(out, indices.shape)
